@@ -357,7 +357,10 @@ func init() {
 	engine.Register(&engine.Property{
 		ID: "C17", Level: "model_checking",
 		Rule:  "E1 over the union of the successful and failing steps of every flow (all modules, e-mail authorisation on, form and JSON) incl. near-miss inputs a user really produces (mailed token with a trailing character or truncated, wrong password with the right one as a prefix); after every transition every known plaintext is searched for in all stored fields, the remember table and the transition's log lines, token mails are checked against the owner's addresses, and every response body / location is searched for mailed tokens the request did not itself present; classes = request kinds, mail kinds and secret kinds in play",
-		Units: func(tier string) []engine.Unit { return e1Units(c17Scenarios(tier)) },
+		Units: func(tier string) []engine.Unit {
+			scs := c17Scenarios(tier)
+			return e1Units(append(scs, configVariants(scs[:1], tier, "err500", "nomount")...))
+		},
 		Need: []string{"mail-failed:rtok", "mail-failed:ctok", "mail-failed:vtok", "known-secret:password", "known-secret:otp", "known-secret:rc", "known-secret:rm", "known-secret:rtok", "known-secret:ctok", "known-secret:vtok",
 			"mail:rtok", "mail:ctok", "mail:vtok", "request:confirm", "request:recover_end", "request:otplogin"},
 		Assumptions: []string{"TOTP secrets and the session-held SMS / e-mail-verify values are outside the statement and are not scanned", "of the backends only the mailer is made to fail in this alphabet (register, recover start, 2FA e-mail verification with Mailer.Send returning an error); malformed percent-encoding is not in it (DESIGN.md 7.11)", "responses are scanned for mailed tokens only (a token may appear only in the response to a request that presented it); passwords and codes in responses are out of scope by the statement", "the application injects one layout data map into every request context (CTXKeyData)"},
